@@ -188,6 +188,24 @@ def main():
                 mem = reduced.get((c["sampler"], c["name"], key), c["members"])
                 culprit = ALIAS.get(same[0], same[0]) if same else ALIAS.get("+".join(sorted(mem)), "+".join(sorted(mem)))
             chk.violation(f"C20:{c['sampler']}:{culprit}:{key}", f"{c['sampler']} option case {c['name']} kwargs={c['kwargs']} run_kwargs={c['run_kwargs']}: {detail}", small)
+    # ---- the fixed configuration matrices of the run-level checks are option combinations too: every one of their runs must complete.  (The other checks treat a run
+    # that raises as outside their own property; this is where it is decided.)
+    if not chk.args.only or chk.args.only == "matrix":
+        from vlib.runhelp import run_matrix
+
+        def post(chk_, case, res, small, error_key=None):
+            if error_key:
+                chk_.count("matrix_runs_raising")
+                chk_.violation(f"C20:matrix:{case['cell']}:{error_key}", f"configuration cell {case['name']} ({case['model']}, {case['kwargs']}) raised after "
+                               f"{res.get('points_at_error')} likelihood points: {res['error']}", small)
+                return True
+            chk_.count("matrix_runs_completed")
+            return False
+
+        saved_only, chk.args.only = chk.args.only, None
+        for sampler in ("standard", "ins"):
+            run_matrix(chk, props=("C20",), post=post, deciding=[], rule="", sampler=sampler, finish=False)
+        chk.args.only = saved_only
     chk.extra["verdict_table"] = dict(sorted(table.items())) if chk.quick else {k: v for k, v in sorted(table.items()) if v != "held"}
     chk.extra["budgets"] = "per run: latent batches per population 1500 (nominal <= 100), INS draw batches per draw 500 (nominal 1-2), standard iterations 80 x nlive (nominal 5-8 x nlive), " \
                            "INS iterations 60 (nominal 3-10; most runs carry a 40-iteration cap), 30 for the runs without a cap (nominal 3-4; wall-clock watchdog 600 s), likelihood points 4e5 (nominal 1.5e3); wall-clock watchdog 150 s (nominal 2-6 s)"
@@ -196,7 +214,8 @@ def main():
     chk.finish("every option value of the standard (130) and importance (64) option tables on its own (thorough: 2 seeds, plus ~600 random compatible pair/triple rows on 2- and "
                "3-parameter models) runs through FlowSampler(...).run(save=True) in its own bounded subprocess with logical step budgets; the outcome must be a configuration "
                "error before any sampler likelihood call, or a clean finish whose results satisfy the C05 oracle and are finite. Non-trivial = run that reached a verdict; "
-               "distinct by (sampler, option case, seed).", require_observed=["runs_held", "runs_rejected", "cases_std", "cases_ins"])
+               "distinct by (sampler, option case, seed). Plus every cell of the standard and importance configuration matrices of the run-level checks (a run that raises there is "
+               "reported here).", require_observed=["runs_held", "runs_rejected", "cases_std", "cases_ins", "matrix_runs_completed"] if not chk.args.only else ["runs_held"])
 
 
 if __name__ == "__main__":
